@@ -86,7 +86,7 @@ def cases(ctx):
             nx.relabel_nodes(c.graph, {r.choice(other): "%s%s%d" % (r.choice(at), qs, inc)}, copy=False)
         yield {"op": "insert_registers", "c": proj(c), "k": k, "qs": qs, "src": "QSUF"}
     # FO: one driver (input / gate / inverter / output gate) with fan-out 1..9, k = 2..5
-    for drv in ("input", "and", "not", "outgate", "const"):
+    for drv in ("input", "and", "not", "outgate", "const", "nand1", "nor1", "xnor1", "dupbuf"):
         for m in range(1, 10):
             p = fanout_circuit(drv, m)
             for k in (2, 3, 4, 5):
@@ -108,6 +108,17 @@ def fanout_circuit(drv, m):
     elif drv == "const":
         d = "one"
         g.add_node("one", type="1", output=False)
+    elif drv in ("nand1", "nor1", "xnor1"):
+        d = "d"                                  # a one-operand inverting gate: its loads see the complement of a
+        g.add_node("d", type=drv[:-1], output=False)
+        g.add_edge("a", "d")
+    elif drv == "dupbuf":
+        d = "a"                                  # a feeds parity gates directly AND through its buffer a_dup (the readers' shape)
+        g.add_node("a_dup", type="buf", output=False)
+        g.add_edge("a", "a_dup")
+        for t in ("xor", "xnor"):
+            g.add_node("p_" + t, type=t, output=True)
+            g.add_edges_from([("a", "p_" + t), ("a_dup", "p_" + t), ("b", "p_" + t)])
     else:
         d = "d"
         g.add_node("d", type="and" if drv != "not" else "not", output=(drv == "outgate"))
